@@ -1,55 +1,80 @@
 """C01, output clauses: every value written to the device chunk is clamped (or 0.0), mono is the mean of the
-clamped channels, and every element of a frame's channel slice is assigned."""
-from ..paths import describe, describe_rv, pretty_place
-from ..rules import calls_to, must_pass
-from ..facts import callee_path, const_value, is_const, is_place
+clamped channels, and every element of a frame's channel slice is assigned.
+
+The rule is written over types and dataflow, not over the names of locals: the device buffer is whatever is reached
+through a `&mut [f32]` / `&mut f32` in Renderer::process_chunk (and in closures it hands to iterator consumers); the
+frame is the `Frame` local whose two fields are replaced by their own clamp(-1.0, 1.0)."""
+from ..paths import describe, describe_rv, pretty_place, origin_def
+from ..rules import calls_to, must_pass, closure_args
+from ..facts import callee_path, const_value, is_const, is_place, operand_place
 from ..rt import const_of, dead_end
+
+F32_REFS = ('&mut [f32]', '&mut f32')
+
+
+def local_ty(b, l):
+    ls = b.j.get('locals') or []
+    return ls[l].get('ty') if 0 <= l < len(ls) else None
+
+
+def device_stores(b):
+    """Assignments through a `&mut [f32]` / `&mut f32` local: [(bb, stmt)]."""
+    out = []
+    for bb, si, s in b.stmts():
+        if s['k'] != 'assign' or not s['lhs']['p'] or s['lhs']['p'][0][0] != 'deref':
+            continue
+        if local_ty(b, s['lhs']['l']) in F32_REFS and s['lhs'].get('ty') == 'f32':
+            out.append((bb, s))
+    return out
 
 
 def run_out(ctx, R, F):
     b = F.body('backend::renderer::Renderer::process_chunk')
     if not R.check(b is not None, 'B.C01.range', 'anchor', 'Renderer::process_chunk not found'):
         return
-    frame = [l for l, n in b.names.items() if n == 'frame']
-    chans = [l for l, n in b.names.items() if n in ('channels', 'channel')]
-    if not R.check(len(frame) == 1 and len(chans) >= 1, 'B.C01.range', 'anchor:locals', 'frame / channels locals not found'):
-        return
-    fl = frame[0]
-    # 1. the two clamps
+    # 1. the two clamps: X.left = clamp(X.left, -1, 1), X.right likewise, X a Frame local
     clamp_blocks = {}
-    other_frame_stores = []
+    cands = {}
     for bb, si, s in b.stmts():
-        if s['k'] != 'assign' or s['lhs']['l'] != fl:
+        if s['k'] != 'assign' or local_ty(b, s['lhs']['l']) != 'frame::Frame':
             continue
-        fld = s['lhs']['p'][0][2] if s['lhs']['p'] and s['lhs']['p'][0][0] == 'field' else None
+        fld = s['lhs']['p'][0][2] if len(s['lhs']['p']) == 1 and s['lhs']['p'][0][0] == 'field' else None
         d = describe_rv(b, s['rv'], depth=3, at=bb)
-        if fld in ('left', 'right') and d == 'core::f32::<impl f32>::clamp(_%d.%s, -1.0, 1.0)' % (fl, fld):
-            clamp_blocks[fld] = bb
-        else:
-            other_frame_stores.append((bb, fld, d))
-    ok = set(clamp_blocks) == {'left', 'right'}
-    R.check(ok, 'B.C01.range', 'clamp', 'frame.left / frame.right are not both replaced by clamp(-1.0, 1.0) before conversion (found %s)' % sorted(clamp_blocks),
+        if fld in ('left', 'right') and d == 'core::f32::<impl f32>::clamp(_%d.%s, -1.0, 1.0)' % (s['lhs']['l'], fld):
+            cands.setdefault(s['lhs']['l'], {})[fld] = (bb, si)
+    frames = [l for l, m in cands.items() if set(m) == {'left', 'right'}]
+    ok = len(frames) == 1
+    R.check(ok, 'B.C01.range', 'clamp', 'no Frame local has both left and right replaced by clamp(-1.0, 1.0) before conversion (found %s)'
+            % {l: sorted(m) for l, m in cands.items()},
             detail='frame.left = frame.left.clamp(-1.0, 1.0); frame.right likewise', where=b.file)
     if not ok:
         return
-    cl, cr = clamp_blocks['left'], clamp_blocks['right']
+    fl = frames[0]
+    clamp_sites = set(cands[fl].values())
+    cl, cr = cands[fl]['left'][0], cands[fl]['right'][0]
+    other_frame_stores = []
+    for bb, si, s in b.stmts():
+        if s['k'] == 'assign' and s['lhs']['l'] == fl and (bb, si) not in clamp_sites:
+            other_frame_stores.append((bb, pretty_place(b, s['lhs']), describe_rv(b, s['rv'], depth=3, at=bb)))
     late = [x for x in other_frame_stores if not (b.dominates(x[0], cl) and b.dominates(x[0], cr))]
     R.check(not late, 'B.C01.range', 'no-late-writes', 'frame is written again after the clamp: %s' % late[:2], detail='no store to frame after the clamps')
-    # 2. every store into the device chunk
+    # 2. every store into the device chunk: in the body, and in closures handed to calls of the body
     n = 0
-    stores = []
-    for bb, si, s in b.stmts():
-        if s['k'] != 'assign' or not s['lhs']['p']:
-            continue
-        p = pretty_place(b, s['lhs'])
-        base_l = s['lhs']['l']
-        if base_l in chans or any(('_%d' % c) in s['lhs']['s'] for c in chans):
-            stores.append((bb, s, p))
-    for bb, s, p in stores:
+    stores = [(bb, s, None) for bb, s in device_stores(b)]
+    for bb, t in b.calls():
+        for c in closure_args(F, b, t):
+            for cbb, s in device_stores(c):
+                stores.append((bb, s, c))
+    allowed = {'_%d.left' % fl: 'left', '_%d.right' % fl: 'right', 'Div(Add(_%d.left, _%d.right), 2.0)' % (fl, fl): 'mean', '0.0': 'zero'}
+
+    def value_of(bb, s, c):
+        return describe_rv(c if c is not None else b, s['rv'], depth=4, at=bb if c is None else None)
+    for bb, s, c in stores:
         n += 1
-        d = describe_rv(b, s['rv'], depth=4, at=bb)
-        allowed = {'_%d.left' % fl: 'left', '_%d.right' % fl: 'right', 'Div(Add(_%d.left, _%d.right), 2.0)' % (fl, fl): 'mean', '0.0': 'zero'}
+        d = value_of(bb, s, c)
         kind = allowed.get(d)
+        if c is not None and kind != 'zero':
+            kind = None  # a closure does not see the clamped frame
         dom = kind == 'zero' or (b.dominates(cl, bb) and b.dominates(cr, bb))
         R.check(kind is not None and dom, 'B.C01.range', 'store#%d:%s' % (n, kind or 'other'),
                 'the device buffer receives %s%s: not a clamped channel, the mean of the two clamped channels, or 0.0' % (d[:100], '' if dom else ' (not after the clamp)'),
@@ -61,7 +86,7 @@ def run_out(ctx, R, F):
         t = b.blocks[x]['term']
         if t['k'] == 'switch' and not b.blocks[x]['cleanup']:
             d = describe(b, t['op'], depth=3, at=x)
-            if d in ('Eq(num_channels, 1)', 'Ne(num_channels, 1)'):
+            if d in ('Eq(num_channels, 1)', 'Ne(num_channels, 1)', 'Eq(_3, 1)', 'Ne(_3, 1)'):
                 sw = (x, d, t)
     if not R.check(sw is not None, 'B.C01.cover', 'anchor', 'the num_channels == 1 branch was not found'):
         return
@@ -69,18 +94,20 @@ def run_out(ctx, R, F):
     tgt0 = dict(t['targets']).get('0')
     mono_t, multi_t = (t['otherwise'], tgt0) if d.startswith('Eq') else (tgt0, t['otherwise'])
     L = min(b.in_loop(x), key=lambda l: len(l['blocks']))
+
     def idx_stores(start):
         reach = b.reachable([start], stop=[L['header']]) - {L['header']}
         out = {}
-        for bb, s, p in stores:
+        for bb, s, c in stores:
             if bb in reach:
                 last = s['lhs']['p'][-1]
-                if last[0] == 'index':
-                    out[const_of(b, {'k': 'copy', 'pl': {'l': last[1], 'p': []}})] = describe_rv(b, s['rv'], depth=4, at=bb)
-                elif last[0] == 'cidx':
-                    out[last[1]] = describe_rv(b, s['rv'], depth=4, at=bb)
+                v = value_of(bb, s, c)
+                if c is None and last[0] == 'index':
+                    out[const_of(b, {'k': 'copy', 'pl': {'l': last[1], 'p': []}})] = v
+                elif c is None and last[0] == 'cidx':
+                    out[last[1]] = v
                 else:
-                    out['*'] = describe_rv(b, s['rv'], depth=4, at=bb)
+                    out['*'] = v
         return out, reach
     mono, _ = idx_stores(mono_t)
     multi, mreach = idx_stores(multi_t)
@@ -88,26 +115,41 @@ def run_out(ctx, R, F):
             'with one channel the sample is %s, not the mean of left and right at index 0' % mono, detail=mono)
     okm = multi.get(0) == '_%d.left' % fl and multi.get(1) == '_%d.right' % fl and multi.get('*') == '0.0'
     R.check(okm, 'B.C01.cover', 'multi', 'with several channels the stores are %s (expected [0]=left, [1]=right, rest=0.0)' % multi, detail={str(k): v for k, v in multi.items()})
-    # the "rest" loop iterates channels.iter_mut().skip(2)
+    # the "rest": the zero store runs for every element of channels.iter_mut().skip(2) -- as the body of a loop over
+    # that iterator, or as the closure of an iterator consumer (for_each) called on it
     sk = [(bb, tt) for bb, tt in b.calls() if (callee_path(tt) or '') == 'std::iter::Iterator::skip' and bb in mreach]
     oks = False
     if len(sk) == 1 and describe(b, sk[0][1]['args'][1]) == '2':
-        from ..paths import origin_def
         d0, _ = origin_def(b, sk[0][1]['args'][0])
         if d0 and d0[0] == 'call' and (callee_path(d0[2]) or '') == 'core::slice::<impl [T]>::iter_mut':
-            # the slice iterated is the `channels` chunk itself
-            ch = [l for l, n in b.names.items() if n == 'channels'][0]
-            from ..facts import operand_place
+            # the slice iterated is the same `&mut [f32]` the indexed stores go through
             pl = operand_place(b, d0[2]['args'][0])
-            d1 = b.single_def(ch)
-            src_ch = describe(b, {'k': 'copy', 'pl': {'l': ch, 'p': []}}, depth=3, at=sk[0][0])
-            src_it = describe(b, d0[2]['args'][0], depth=3, at=sk[0][0])
-            oks = src_ch.replace('&', '') == src_it.replace('&', '') or (pl is not None and pl['l'] == ch)
-            if not oks and pl is not None and d1 and d1[0] == 'stmt' and d1[3]['rv']['k'] == 'use' and 'pl' in d1[3]['rv']['op']:
-                from ..facts import expand_place
-                oks = pl['s'] == '(*%s)' % expand_place(b, d1[3]['rv']['op']['pl'])['s']
+            idx_bases = set(s['lhs']['l'] for bb, s, c in stores if c is None and bb in mreach and s['lhs']['p'][-1][0] in ('index', 'cidx'))
+            src_it = describe(b, d0[2]['args'][0], depth=3, at=sk[0][0]).replace('&', '')
+            for ch in idx_bases:
+                src_ch = describe(b, {'k': 'copy', 'pl': {'l': ch, 'p': []}}, depth=3, at=sk[0][0]).replace('&', '')
+                if src_ch == src_it or (pl is not None and pl['l'] == ch):
+                    oks = True
+                d1 = b.single_def(ch)
+                if not oks and pl is not None and d1 and d1[0] == 'stmt' and d1[3]['rv']['k'] == 'use' and 'pl' in d1[3]['rv']['op']:
+                    from ..facts import expand_place
+                    oks = pl['s'] == '(*%s)' % expand_place(b, d1[3]['rv']['op']['pl'])['s']
+        if oks:
+            # the consumer of the skip() result: a `next` loop containing the zero store, or for_each with the zero closure
+            zero = [(bb, s, c) for bb, s, c in stores if bb in mreach and (c is not None or s['lhs']['p'][-1][0] == 'deref')]
+            oks = False
+            for bb, s, c in zero:
+                if c is not None:
+                    cp = callee_path(b.blocks[bb]['term']) or ''
+                    recv, _ = origin_def(b, b.blocks[bb]['term']['args'][0])
+                    if cp.endswith('Iterator::for_each') and recv and recv[0] == 'call' and recv[1] == sk[0][0]:
+                        oks = True
+                else:
+                    inner = [l for l in b.in_loop(bb) if l['header'] != L['header']]
+                    if inner and sk[0][0] not in min(inner, key=lambda l: len(l['blocks']))['blocks'] and b.dominates(sk[0][0], bb):
+                        oks = True
     R.check(oks, 'B.C01.cover', 'rest', 'channels beyond the second are not silenced through channels.iter_mut().skip(2)', detail='for channel in channels.iter_mut().skip(2) { *channel = 0.0 }')
     # both branches rejoin and nothing skips them: from the switch, the loop header is only reached through a store block
-    sb = [bb for bb, s, p in stores]
+    sb = [bb for bb, s, c in stores]
     R.check(must_pass(b, [mono_t, multi_t], [L['header']], sb), 'B.C01.cover', 'every-iteration',
             'an iteration of the conversion loop can complete without writing the frame', detail='every path through the loop body writes')
